@@ -42,6 +42,11 @@ PROPS = {
     'C03': dict(module='c03', pfile='P_C03', required=['C03_rows', 'C03_once', 'C03_posterior'], trusted=[KERNEL, EXTRACTION] + SHELL_TRUST),
     'C10': dict(module='c10', pfile='P_C10', required=['C10_batch', 'C10_counter', 'C10_count', 'C10_budget', 'C10_success', 'C10_branch'], trusted=[KERNEL, EXTRACTION] + SHELL_TRUST + ['oracle bits of the run() loop: n_eff >= target recomputed by the harness from the public accessor, time-out only exercised as timeout=0']),
     'C12': dict(module='c12', pfile='P_C12', required=['C12_frozen', 'C12_nonempty', 'C12_toggle', 'C12_view'], trusted=[KERNEL, EXTRACTION] + SHELL_TRUST),
+    'C09': dict(module='c09', pfile='P_C09',
+                required=['C09_cube', 'C09_ellipsoid', 'C09_mixture', 'C09_union', 'C09_shift', 'C09_emulator', 'C09_neural', 'C09_nautilus', 'C09_update_union', 'C09_update_nautilus'],
+                trusted=[KERNEL, 'model evaluated inside Coq by vm_compute on generated cases_C09.v (no extraction)',
+                         'harness/c09.py: abstraction of live objects through __dict__ (unknown attributes fail closed), HDF5 group dump, value tokens by byte pattern',
+                         'modelled not verified: h5py/HDF5 storing and returning values unchanged, MLPRegressor.predict reading only restored attributes (checked behaviourally), numpy Generator state cloning']),
 }
 
 
